@@ -16,6 +16,7 @@ import vcheck as V
 
 SPEC, MON, MONCFG = "EVMSync.tla", "EVMSyncTrace.tla", "EVMSyncTrace.cfg"
 SHARDS = 4
+BATCH = 500
 
 
 def cfg_const(cfg, name):
@@ -48,7 +49,7 @@ def export_walks(cfg, sc, num, seed):
     runs = 4
 
     def one(i):
-        steps, st = V.export_cases(SPEC, cfg, sc, tag="STEP", timeout=900, workers=1,
+        steps, st = V.export_cases(SPEC, cfg, sc, tag="STEP", timeout=1500, workers=1, heap="3g",
                                    extra=["-simulate", "num=%d" % max(1, num // runs), "-depth", str(depth), "-seed", str(seed * 16 + i)])
         walks = {}
         for x in steps:
@@ -68,10 +69,9 @@ def export_walks(cfg, sc, num, seed):
 
 
 def run_shards(drv, behs, sc, tag):
-    """replay in SHARDS parallel driver processes; returns the concatenated trace file (trace k = behaviour k)"""
-    n = max(1, min(SHARDS, len(behs)))
-    parts = [behs[i * len(behs) // n:(i + 1) * len(behs) // n] for i in range(n)]
-    files = []
+    """replay in driver processes of at most BATCH behaviours each (a process keeps the SQLite handles of the detectors it
+    created), SHARDS at a time; returns the concatenated trace file (trace k = behaviour k)"""
+    parts = [behs[i:i + BATCH] for i in range(0, len(behs), BATCH)] or [[]]
 
     def one(i):
         bf, tf = sc.path("beh-%s-%d.json" % (tag, i)), sc.path("trace-%s-%d.ndjson" % (tag, i))
@@ -79,8 +79,8 @@ def run_shards(drv, behs, sc, tag):
         V.run_driver(drv, ["-in", bf, "-out", tf], timeout=3000)
         return tf
 
-    with ThreadPoolExecutor(max_workers=n) as ex:
-        files = list(ex.map(one, range(n)))
+    with ThreadPoolExecutor(max_workers=SHARDS) as ex:
+        files = list(ex.map(one, range(len(parts))))
     out = sc.path("trace-%s.ndjson" % tag)
     with open(out, "w") as f:
         for p in files:
@@ -153,6 +153,8 @@ def pick_gap_process(tr):
     """a delivered block with events that is followed by another delivered block (dropping it leaves a skipped block)"""
     idx = [i for i, e in enumerate(tr) if e["ev"] == "process" and e["ok"]]
     for a, b in zip(idx, idx[1:]):
+        if any(e["ev"] == "chain" and e["op"] == "fork" for e in tr[:b]):
+            return None     # after a fork the later block's own chain may not contain the dropped block's logs
         if tr[a]["evs"] and tr[b]["n"] > tr[a]["n"] and not any(e["ev"] in ("reorg", "restart") for e in tr[a:b]):
             return a
     return None
